@@ -61,6 +61,15 @@ def gen(tier, seed):
         cs, m = lpcases.family(cfg, "quick", seed, n, sim)
         meta[cfg[:-4]] = m
         cases += cs
+    # every 5th multi-variable case again with the domain map filled in reverse column order
+    rev = []
+    for i, c in enumerate(cases):
+        if i % 5 == seed % 5 and len(c.get("vars", [])) >= 2:
+            r = copy.deepcopy(c)
+            r["id"] = c["id"] + "_rev"
+            r["domorder"] = "rev"
+            rev.append(r)
+    cases += rev
     # every 7th case also as a satisfy model
     extra = []
     for i, c in enumerate(cases):
